@@ -78,6 +78,18 @@ func (ex *Exec) load(st *State, p Ptr, instr ssa.Instruction) Value {
 			panic("symbolic index into non-array")
 		}
 		return ex.symIndexLoad(st, arr, p.Sym)
+	case ObjSparse:
+		if p.Sym == nil || p.Path != "" {
+			panic(cutPath{"pointer into an element of a sparse array"})
+		}
+		// the latest write to this index wins; each comparison that the path condition does not settle forks
+		for i := len(o.SpWrites) - 1; i >= 0; i-- {
+			w := o.SpWrites[i]
+			if ex.decide(st, ex.tb.Eq(p.Sym, w.Idx)) {
+				return w.V
+			}
+		}
+		return o.SpDef
 	}
 	panic("load: bad object kind")
 }
@@ -127,6 +139,13 @@ func (ex *Exec) store(st *State, p Ptr, v Value, instr ssa.Instruction) {
 		}
 		w := st.wobj(p.Obj)
 		w.Arr = ex.tb.Store(w.Arr, p.Sym, t)
+		return
+	case ObjSparse:
+		if p.Sym == nil || p.Path != "" {
+			panic(cutPath{"pointer into an element of a sparse array"})
+		}
+		w := st.wobj(p.Obj)
+		w.SpWrites = append(append([]SpWrite(nil), w.SpWrites...), SpWrite{Idx: p.Sym, V: v})
 		return
 	case ObjCells:
 		path := pathElems(p.Path)
@@ -374,7 +393,7 @@ func (ex *Exec) indexAddr(st *State, f *Frame, in *ssa.IndexAddr) Value {
 		}
 		e := ex.tb.Add(a.Off, idx)
 		o := st.obj(a.Obj)
-		if o.kind == ObjSmt {
+		if o.kind == ObjSmt || o.kind == ObjSparse {
 			return Ptr{Obj: a.Obj, Sym: e}
 		}
 		if e.IsConst() {
@@ -411,6 +430,13 @@ func (ex *Exec) makeSlice(st *State, elem types.Type, n, c *Term, instr ssa.Inst
 		return SliceV{Obj: o.id, Off: ex.c64(0), Len: n, Cap: c}
 	}
 	ex.account(st, tb.Mul(c, ex.c64(esz)), instr)
+	if !c.IsConst() || c.c > 1<<16 {
+		// non-scalar elements, symbolic or very large size: a sparse array (all elements zero until written)
+		o := st.newObj(ObjSparse, elem, "make")
+		o.ALen = c
+		o.SpDef = ex.zero(elem)
+		return SliceV{Obj: o.id, Off: ex.c64(0), Len: n, Cap: c}
+	}
 	cc := ex.concretize(st, c, "make capacity")
 	if cc > 1<<20 {
 		panic(cutPath{"make of more than 2^20 non-scalar elements"})
